@@ -41,6 +41,18 @@ func NativeToObject(val any) Object {
 	valType := reflect.TypeOf(val)
 
 	switch valType.Kind() {
+	// values of named types (type Status string) are
+	// converted by their kind, like the plain types above
+	case reflect.String:
+		return &Str{Value: reflect.ValueOf(val).String()}
+	case reflect.Bool:
+		return &Bool{Value: reflect.ValueOf(val).Bool()}
+	case reflect.Int, reflect.Int8, reflect.Int16, reflect.Int32, reflect.Int64:
+		return &Int{Value: reflect.ValueOf(val).Int()}
+	case reflect.Uint, reflect.Uint8, reflect.Uint16, reflect.Uint32, reflect.Uint64:
+		return &Int{Value: int64(reflect.ValueOf(val).Uint())}
+	case reflect.Float32, reflect.Float64:
+		return &Float{Value: reflect.ValueOf(val).Float()}
 	case reflect.Struct:
 		return nativeStructToObject(val)
 	case reflect.Slice:
